@@ -7,7 +7,7 @@ CONSTANTS
   Ks = {1}
   Fmts = {"bc"}
   NFiles = {1}
-  Lazy = {TRUE}
+  Lazy = {"this"}
   Touches = {"lookup", "getitem"}
   Variant = "getitem_noexpand"
 INVARIANT TypeOK
